@@ -1,0 +1,5 @@
+//go:build !verif
+
+package internal
+
+func copyHook(stage, source, dest string) error { return nil }
